@@ -1,23 +1,32 @@
+import EV.Driver.C01
+import EV.Driver.C02
+import EV.Driver.C12
 import EV.Driver.C18
+import EV.Driver.C19
 open EV.Driver
 
-def allOps : List (String × Handler) := C18.ops
+def allOps : List (String × Handler) := C01.ops ++ C02.ops ++ C12.ops ++ C18.ops ++ C19.ops
 
-def handle (line : String) : String :=
+def handle (cfg : Cfg) (line : String) : Cfg × String :=
   match line.trimAscii.toString.splitOn " " with
-  | [] => "bad-op"
+  | [] => (cfg, "bad-op")
+  | ["cfg", a, b, c] =>
+    match a.toNat?, b.toNat?, c.toNat? with
+    | some a, some b, some c => ({ sizeTxIn := a, sizeTxOut := b, sizeTx := c }, "ok")
+    | _, _, _ => (cfg, "bad-op")
   | op :: args =>
     match allOps.lookup op with
-    | some h => h args
-    | none => "bad-op"
+    | some h => (cfg, h cfg args)
+    | none => (cfg, "bad-op")
 
-partial def loop (hin : IO.FS.Stream) (hout : IO.FS.Stream) : IO Unit := do
+partial def loop (hin : IO.FS.Stream) (hout : IO.FS.Stream) (cfg : Cfg) : IO Unit := do
   let line ← hin.getLine
   if line.isEmpty then return ()
-  hout.putStrLn (handle line)
-  loop hin hout
+  let (cfg', out) := handle cfg line
+  hout.putStrLn out
+  loop hin hout cfg'
 
 def main : IO Unit := do
   let hin ← IO.getStdin
   let hout ← IO.getStdout
-  loop hin hout
+  loop hin hout {}
